@@ -14,7 +14,8 @@ PROPS_FILES = ["Props/C14.v"]
 ASSUMPTIONS = [
   "exact arithmetic over Q; the decimal constants of the source (0.15, 0.3, ...) are the rationals they denote",
   "a quotient of integers a/b and a decimal constant compare identically in double and in Q unless 0 < |a/b - c| < 2^-53 "
-  "(impossible for budgets below ~1e13); generated cases whose rational margin to a boundary is below 1e-9 are discarded and counted",
+  "(impossible for budgets below ~1e13); generated cases whose rational margin to a boundary is below 1e-9 are discarded and counted - except EXACT ties of a singly-rounded quotient "
+  "with the literal of the same rational, which are kept and judged by the rational comparison (both sides are the double nearest to the same rational: see _near)",
   "Halton sampler (qmcpy) contract: generate_halton_points(101, [[0.1, 0.9]], skip=1) returns 101 numbers in [0.1, 0.9]; "
   "numpy.random.random() returns a number in [0, 1); random.choice returns a member of its argument",
   "numpy.argsort is modelled as extraction of first minima (Model/Pareto.v); with ties in the optimising column the epsilon "
@@ -407,7 +408,16 @@ def adjusted(b, f, o):
 
 
 def _near(x, ts, zero_ok=True):
-  """True when x is closer than MARGIN to one of ts (an exact hit is allowed when the double comparison is exact too)."""
+  """True when x is closer than MARGIN to one of ts, an EXACT hit excepted (zero_ok).
+
+  Why the two are treated differently.  x is the rational a / b of two integer counts and t the rational a decimal literal of the source denotes.
+  The code compares fl(a / b) with fl(t): ONE correctly rounded IEEE division of two integers below 2**53 (exactly representable, so the quotient is
+  the double nearest to the rational a / b) against a literal that Python's parser rounds correctly too (the double nearest to t).  When a / b = t as
+  rationals both sides are the double nearest to the SAME rational, hence the same double, and `<`, `<=`, `>` decide exactly as the rationals do:
+  an exact tie is judged by the rational comparison, and the unchanged code is provably exact there.  For a near miss, 0 < |a / b - t| < MARGIN, no
+  such argument is available at this level (it needs |a / b - t| >= 2**-53, true for budgets below ~1e13 but not checked per case): discarded.
+  zero_ok = False is for quantities the code reaches by MORE than one rounded operation (1 - f / (1 + c)): there an exact rational tie says
+  nothing about the doubles, so the tie is discarded as well."""
   for t in ts:
     d = abs(x - t)
     if d < MARGIN and not (zero_ok and d == 0):
@@ -470,7 +480,7 @@ def gen_counts(rng):
     c, f, o = rng.randint(0, 70), rng.randint(0, 20), rng.randint(0, 6)
   elif style == "decimal":  # fractions that hit the documented boundaries exactly
     b = rng.choice([20, 40, 100, 200, 1000])
-    f, o = rng.choice([0, 0, b // 10]), rng.choice([0, 0, 1, 2])
+    f, o = rng.choice([0, 0, b // 10, rng.randint(0, b // 2), rng.randint(0, b // 2)]), rng.choice([0, 0, 1, 2])   # any failure count: the tie moves with it
     adj = adjusted(b, f, o)
     k = rng.choice([10, 15, 20, 30, 40, 45, 55, 65, 75, 95, 100])
     return b, max(0, adj * k // 100 - o + rng.choice([-1, 0, 0, 1])), f, o
@@ -491,6 +501,32 @@ def gen_counts(rng):
     adj = adjusted(b, f, o)
     c = max(0, int(rng.uniform(0, 1.1) * adj) - o)
   return b, c, f, o
+
+
+def spe_ties(b, fmax):
+  """every (budget, observations, failures) triple EXACTLY on a documented fraction of the Parzen phase selector: success progress 15 % / 75 % of the
+  budget for every failure count, total progress 30 % for every failure count (the corner of the initialisation test)"""
+  out = []
+  for f in range(0, fmax + 1):
+    if (3 * b) % 20 == 0:
+      out.append(dict(b=b, c=f + 3 * b // 20, f=f))
+    if (3 * b) % 4 == 0:
+      out.append(dict(b=b, c=f + 3 * b // 4, f=f))
+    if (3 * b) % 10 == 0 and f <= 3 * b // 10:
+      out.append(dict(b=b, c=3 * b // 10, f=f))
+  return out
+
+
+def served_ties(kind, b, f, o):
+  """observation counts that put the served / completed fraction of the multimetric (or search) selector EXACTLY on a documented fraction"""
+  adj = adjusted(b, f, o)
+  out = []
+  for k in ((20, 40) if kind == "search" else (15, 30, 45, 55, 65, 95)):
+    if (k * adj) % 100 == 0 and k * adj // 100 - o >= 0:
+      out.append(k * adj // 100 - o)
+  if kind != "search" and adj % 10 == 0:
+    out.append(adj // 10)
+  return out
 
 
 def gen_frac(rng):
@@ -640,6 +676,9 @@ def gen_case(rng):
     if kind == "mm":
       inp["thr"] = rng.random() < 0.5
     return kind, inp
+  if kind == "spe" and rng.random() < 0.35:   # exactly ON a documented fraction, with any failure count
+    b = rng.choice([4, 8, 20, 20, 40, 60, 100, 100, 120, 200, 340, 1000])
+    return kind, rng.choice(spe_ties(b, rng.choice([5, b // 2, b + 5])))
   if kind == "spe":
     b, c, f, _ = gen_counts(rng)
     b = max(b, 1)
@@ -817,8 +856,10 @@ def correspondence(ctx):
   cases, meta, seen, dist = [], [], set(), {}
   nontriv = discarded = 0
   dis = []
+  # deterministic part of every run: the Parzen selector exactly ON its documented fractions, budgets 20 / 40 / 100, every failure count up to 30
+  fixed = [("spe", t) for b in (20, 40, 100) for t in spe_ties(b, 30)]
   while len(cases) < n:
-    kind, inp = gen_case(ctx.rng)
+    kind, inp = fixed.pop() if fixed else gen_case(ctx.rng)
     if margin_discard(kind, inp):
       discarded += 1
       continue
@@ -856,7 +897,7 @@ def correspondence(ctx):
   dist["discarded-by-margin-rule"] = discarded
   return dict(evaluations=len(cases), distinct_nontrivial=nontriv,
               rule="integer budgets/counts of six styles (small, exact documented boundaries +-1, mid, tiny budget, failures above the budget, "
-                   "up to 3e12), both threshold flags; fractions dyadic k/1024, mid-cell decimals, end points, out of range (fallback draw); "
+                   "up to 3e12, exact ties with ANY failure count: the Parzen selector on 15 % / 75 % / 30 % for budgets 20, 40, 100 and every failure count up to 30 on every run), both threshold flags; fractions dyadic k/1024, mid-cell decimals, end points, out of range (fallback draw); "
                    "real SPENextPoints views (suggestion generation stubbed) on requests with no / zero (int, int64, int32) / positive budgets, 1-3 parameters "
                    "of any type, counts across all phases of the effective budget and either side of its boundaries, failures none to all; "
                    "real View objects for the wiring (budgets from 0), incl. requests whose optimised / constraint / stored metrics sit in any column order with thresholds "
@@ -864,7 +905,7 @@ def correspondence(ctx):
                    "inside (0.55, 0.65], open suggestions present / zero / absent; the real MetricsInfo flag for 0..3 optimised columns; "
                    "filters on n<=10 rows of small integers with forced ties, dyadic weights/epsilon, every mode "
                    "on both paths; thresholds inside/outside the data for the SPE augmentation. Cases closer than 1e-9 (rational margin) to a "
-                   "phase or table boundary are discarded and counted. non-trivial = past initialisation (selectors), mixed failure mask (filters), "
+                   "phase or table boundary are discarded and counted, EXACT ties of singly-rounded quotients excepted (judged by the rational comparison). non-trivial = past initialisation (selectors), mixed failure mask (filters), "
                    "mask changed (augmentation); distinct by hash of the canonical input",
               samples=[dict(kind=k, input=i, impl_output=o) for k, i, o in meta[:3]], distribution=dist, disagreements=dis)
 
@@ -1239,6 +1280,24 @@ def search(ctx, hints, broken):
       r = oracle(h["kind"], h["input"])
       if r and r["signature"] not in {x["signature"] for x in fails}:
         fails.append(r)
+  # exhaustive sweep of the exact corners: every triple ON a documented fraction of the Parzen selector (budgets up to 200 / 1000, every failure count up
+  # to the budget + 5), and of the multimetric / search selectors (budgets up to 60, every failure and open-suggestion count)
+  def sweep(kind, inp):
+    nonlocal n
+    n += 1
+    r = oracle(kind, inp)
+    if r and r["signature"] not in {x["signature"] for x in fails}:
+      fails.append(r)
+  for b in range(4, ctx.n(200, 1000) + 1, 4):
+    for t in spe_ties(b, b + 5):
+      sweep("spe", t)
+  for b in range(1, 61):
+    for f in range(0, b + 3, 1 if b <= 30 else 3):
+      for o in (0, 1, 3):
+        for c in served_ties("search", b, f, o):
+          sweep("search", dict(b=b, c=c, f=f, o=o))
+        for c in served_ties("mm", b, f, o):
+          sweep("mm", dict(b=b, c=c, f=f, o=o, thr=(b + f + o) % 2 == 0))
   budget = ctx.n(4000, 40000) * (2 if broken else 1)
   rng = ctx.rng
   for k in range(budget):
@@ -1254,7 +1313,7 @@ def search(ctx, hints, broken):
         fails.append(r)
       if len(fails) >= 3:
         break
-  return dict(evaluations=n, failures=fails, oracle="documented fraction table over exact rationals; observation-count sweeps; closed-form weight "
+  return dict(evaluations=n, failures=fails, oracle="documented fraction table over exact rationals; exhaustive sweep of the counts exactly on a documented fraction; observation-count sweeps; closed-form weight "
               "table; loop-based filter contracts; deep comparison of inputs")
 
 
@@ -1277,3 +1336,9 @@ LEVEL_NOTE = ("Exact arithmetic over Q; double/rational agreement of threshold c
               "immutability of inputs is a runtime deep comparison; harness and case printer trusted; no axioms")
 TECHNIQUE = "Coq proof (case analysis over the fraction table with lra, induction on lists) on executable model + in-Coq differential correspondence"
 DESIGN_REF = "DESIGN.md section 7, C14"
+
+# --- gap round (seeded C14_m13): additions to the claimed level
+LEVEL_TEXT += ("; exact corners of the selectors: counts exactly ON a documented fraction with ANY failure / open-suggestion count are generated (correspondence: the Parzen selector on 15 % / 75 % / "
+               "30 % for budgets 20, 40, 100 and every failure count up to 30 on every run, random ties beyond; searcher: exhaustive over budgets up to 200, every failure count, and over the "
+               "multimetric / search selectors for budgets up to 60) and judged by the rational comparison - sound because the code's quantity is one correctly rounded division of the rational "
+               "the literal denotes; near-ties that are not exact stay discarded")
